@@ -291,6 +291,8 @@ class Exec:
                 if isinstance(base, OptV):
                     self.implicit('**None', z3.Not(self.zbool(base.isnone)), 'TypeError')
                     base = base.val
+                if isinstance(base, Obj) and self.models.get(base.cls) is not None and hasattr(self.models[base.cls], 'm_items'):
+                    base = dict(self.iterate(self.models[base.cls].m_items(self, base)))      # ** of a dict-like model object
                 if out is None or (isinstance(out, dict) and not out):
                     out = dict(base) if isinstance(base, dict) else SDict(base.keys, base.vals) if isinstance(base, SDict) else None
                     if out is None:
